@@ -32,8 +32,8 @@ var Checks = map[string]CheckSpec{
 	"C04": {Property: "C04", Level: "exploration", Profiles: []string{"book", "fixed", "book", "general"}, QuickS: 75, ThoroughS: 600},
 	"C05": {Property: "C05", Level: "exploration", Profiles: []string{"book", "fixed", "rounds", "general"}, QuickS: 75, ThoroughS: 600},
 	"C06": {Property: "C06", Level: "exploration", Profiles: []string{"fixed", "fixed", "general"}, Opts: ExecOpts{Lin: true}, QuickS: 75, ThoroughS: 600},
-	"C07": {Property: "C07", Level: "fault_enumeration", Profiles: []string{"general", "book", "idle", "extreme", "clock", "book"}, Opts: ExecOpts{BankFailEnum: true, MaxEnumBlocks: 5}, QuickS: 90, ThoroughS: 900},
-	"C08": {Property: "C08", Level: "exploration", Profiles: []string{"clock", "general", "rounds"}, QuickS: 75, ThoroughS: 600},
+	"C07": {Property: "C07", Level: "fault_enumeration", Profiles: []string{"general", "book", "idle", "extreme", "clock", "book", "sprawl"}, Opts: ExecOpts{BankFailEnum: true, MaxEnumBlocks: 5}, QuickS: 90, ThoroughS: 900},
+	"C08": {Property: "C08", Level: "exploration", Profiles: []string{"clock", "general", "rounds", "clock", "general", "rounds", "sprawl"}, QuickS: 75, ThoroughS: 600},
 	"C09": {Property: "C09", Level: "exploration", Profiles: []string{"vesting", "clock", "general"}, QuickS: 75, ThoroughS: 600},
 	"C10": {Property: "C10", Level: "exploration", Profiles: []string{"general", "messages"}, QuickS: 60, ThoroughS: 300},
 	"C11": {Property: "C11", Level: "exploration", Profiles: []string{"book", "rounds", "general"}, QuickS: 75, ThoroughS: 600},
@@ -45,7 +45,7 @@ var Checks = map[string]CheckSpec{
 	"C17": {Property: "C17", Level: "fault_enumeration", Custom: "hooks", Profiles: []string{"hooks", "book", "clock", "fixed"}, QuickS: 60, ThoroughS: 600},
 	"C20": {Property: "C20", Level: "exploration", Custom: "cli", QuickS: 75, ThoroughS: 600},
 	"C18": {Property: "C18", Level: "exploration", Profiles: []string{"messages", "general", "messages", "extreme"}, Opts: ExecOpts{Trace: true}, QuickS: 75, ThoroughS: 600},
-	"C19": {Property: "C19", Level: "exploration", Profiles: []string{"concurrent", "general", "vesting"}, Opts: ExecOpts{Trace: true, Project: true}, QuickS: 75, ThoroughS: 600},
+	"C19": {Property: "C19", Level: "exploration", Profiles: []string{"concurrent", "general", "vesting", "concurrent", "general", "vesting", "sprawl"}, Opts: ExecOpts{Trace: true, Project: true}, QuickS: 75, ThoroughS: 600},
 }
 
 type Finding struct {
